@@ -2,9 +2,11 @@
 # run every property's thorough tier once (from any checkout of /verif), print one summary line each
 cd "$(dirname "$0")/.."
 ./setup.sh >/dev/null 2>&1 || { echo "setup failed"; exit 2; }
+bad=0
 for p in ${PROPS:-C01 C02 C03 C04 C05 C06 C07 C08 C09 C10 C11 C12 C13 C14 C15 C16 C17 C18 C19 C20}; do
   s=$(date +%s)
   out=$(./check $p --tier thorough 2>&1); rc=$?
   echo "$p rc=$rc $(( $(date +%s) - s ))s :: $(echo "$out" | tail -1 | cut -c1-200)"
-  [ $rc != 0 ] && echo "$out" | grep -A1 "^VIOLATION\|MACHINERY" | head -12 | cut -c1-400
+  [ $rc != 0 ] && bad=1 && echo "$out" | grep -A1 "^VIOLATION\|MACHINERY" | head -12 | cut -c1-400
 done
+exit $bad
